@@ -270,6 +270,9 @@ func runReplayOnce(doc *ReplayDoc, path string, args []string) ReplayResult {
 	switch {
 	case strings.Contains(o, "REPLAY-DIVERGED"):
 		rr.Note = "native run left the assumed region (assume failed)"
+	case (doc.Kind == "assert" || doc.Kind == "race") && strings.Contains(o, "fatal error: concurrent map"):
+		// the Go runtime's own detection of an unsynchronised map access: the real code failed
+		rr.Reproduced = true
 	case doc.Kind == "assert":
 		if strings.Contains(o, "VERIF-ASSERT-FAIL "+doc.Label+"\n") || strings.Contains(o, "VERIF-ASSERT-FAIL "+doc.Label+" ") {
 			rr.Reproduced = true
